@@ -362,3 +362,25 @@ def run(ctx, rep):
                 rep.undecided("C15.8", cons, "test not recognised", f"{f.path}:{st.lineno}")
     if n8 == 0:
         raise AnalysisError("C15.8: no zero-initialised count array found in core/result.py")
+
+    # ------------------------------------------------------------ C15.9
+    rep.rule("C15.9", "hardware outputs: a value is parsed as a bit string exactly when it IS a string (numpy integers and Python ints alike go the integer way)", floor=1)
+    n9 = 0
+    for f in ix.functions.values():
+        if f.module != "jaqalpaq.core.result" or isinstance(f.node, ast.Lambda):
+            continue
+        fl9 = None
+        for nd in walk_no_nested(f.node):
+            if isinstance(nd, ast.Call) and isinstance(nd.func, ast.Name) and nd.func.id == "int" and len(nd.args) == 2 and isinstance(nd.args[1], ast.Constant) and nd.args[1].value == 2:
+                n9 += 1
+                if fl9 is None:
+                    fl9 = FuncFlow(ix, T, f)
+                cons = construct_of(f, "string-branch")
+                tests = fl9.control_tests(nd)
+                pos = any(isinstance(t, ast.Call) and isinstance(t.func, ast.Name) and t.func.id == "isinstance" and len(t.args) == 2 and "str" in ast.unparse(t.args[1]) for t in tests)
+                if pos:
+                    rep.ok("C15.9", cons, "`isinstance(x, str)` selects the bit-string parse", f"{f.path}:{nd.lineno}")
+                else:
+                    rep.violation("C15.9", cons, f"the bit-string parse `{ast.unparse(nd)}` is not selected by a positive isinstance(.., str) test ({'; '.join(ast.unparse(t)[:40] for t in tests) or 'no test'}): an integer outcome of another integer type (numpy.int64 from iterating an array) is sliced like a string and fails", f"{f.path}:{nd.lineno}", witness="parse_jaqal_output_list(circuit, numpy.array([1, 3, 1, 0]))")
+    if n9 == 0:
+        raise AnalysisError("C15.9: no bit-string parse of hardware outputs found in core/result.py")
